@@ -1,14 +1,128 @@
 /-
-C05 — evaluator property; theorems over LiquerModel/Eval.lean and LiquerModel/Ref.lean.
+C05 — Cache admission: only finished, successful, non-volatile results are served; what is served is fresh.
+Theorems over LiquerModel/Eval.lean and LiquerModel/Ref.lean; helper lemmas in LiquerProofs/Lemmas/Eval*.lean.
+`Sound`, `Closed`, `CanonOK`: see the header of Props/C01.lean.
 -/
 import LiquerModel.Ref
 import LiquerProofs.Inst.Vocab
+import LiquerProofs.Lemmas.EvalCache
+import LiquerProofs.Lemmas.EvalExact
+import LiquerProofs.Lemmas.EvalExample
 
 namespace Liquer.C05
 
 /-- the regenerated command signature table satisfies the side conditions the evaluator theorems assume -/
 theorem inst_registry : Inst.registryOK Gen.registry = true := Inst.registry_ok
 
+/-! ### served = fresh -/
+
+/-- After any history starting from the empty cache, the data the cache returns for a key is (up to the
+`status` the cache rewrites) what the reference interpretation of that key text produces — and that fresh
+result is successful, non-volatile and has caching enabled. -/
+theorem served_is_fresh {env : Env} {C : Query → Prop} {T : Str → Prop} (hC : Closed env C T)
+    (hcanon : ∀ q, C q → CanonOK env q) (fuel : Nat) (h : List HistOp) (hok : ∀ op ∈ h, op.ok C T)
+    (k : Str) (st : EState) (hg : (runHist env fuel {} h).get k = some st) :
+    ∃ fuel' st' c, refText env fuel' k = (.st st', c) ∧ st'.isError = false ∧ st'.volatile = false ∧
+      st'.caching = true ∧ st.core = st'.core :=
+  (runHist_sound hC hcanon fuel h {} (Sound.empty env) hok).get hg
+
+/-- the same from any sound starting cache, for data hidden behind a progress status as well -/
+theorem served_is_fresh_from {env : Env} {C : Query → Prop} {T : Str → Prop} (hC : Closed env C T)
+    (hcanon : ∀ q, C q → CanonOK env q) (fuel : Nat) (h : List HistOp) (w : World) (hS : Sound env w)
+    (hok : ∀ op ∈ h, op.ok C T) : Sound env (runHist env fuel w h) :=
+  runHist_sound hC hcanon fuel h w hS hok
+
+/-! ### never retrievable -/
+
+/-- A key whose fresh evaluation fails, is volatile (produced by or downstream of a volatile command) or is at
+or downstream of a command that switched caching off is never retrievable as data, after any history. -/
+theorem never_data {env : Env} {C : Query → Prop} {T : Str → Prop} (hC : Closed env C T)
+    (hcanon : ∀ q, C q → CanonOK env q) (fuel : Nat) (h : List HistOp) (hok : ∀ op ∈ h, op.ok C T)
+    (k : Str) (m : Nat) (s : EState) (c : List Str) (href : refText env m k = (.st s, c))
+    (hbad : s.isError = true ∨ s.volatile = true ∨ s.caching = false) :
+    (runHist env fuel {} h).get k = none :=
+  World.get_none_of_dataAt
+    ((runHist_sound hC hcanon fuel h {} (Sound.empty env) hok).no_data_of_bad href hbad)
+
+/-- … nor a key whose text does not parse or whose evaluation raises (a failing link argument) -/
+theorem never_data_raised {env : Env} {C : Query → Prop} {T : Str → Prop} (hC : Closed env C T)
+    (hcanon : ∀ q, C q → CanonOK env q) (fuel : Nat) (h : List HistOp) (hok : ∀ op ∈ h, op.ok C T)
+    (k : Str) (m : Nat) (hne : (refText env m k).1 ≠ .unmodelled) (hns : ∀ s, (refText env m k).1 ≠ .st s) :
+    (runHist env fuel {} h).get k = none :=
+  World.get_none_of_dataAt
+    ((runHist_sound hC hcanon fuel h {} (Sound.empty env) hok).no_data_of_not_st hne hns)
+
+/-- One level, no hypothesis on the world: when the last step (action or file name) of a non-hit evaluation
+ends failed, volatile — in particular with extra parameters — or with caching switched off, no data is
+retrievable under the canonical key afterwards: the entry is removed or marked as error.  For an error state
+the as-typed text must be the canonical one (a failure inherited from the predecessor only rewrites the
+metadata filed under the as-typed text). -/
+theorem not_admitted (env : Env) (n : Nat) (w w' : World) (q : Query) (raw : Str) (extra : Extra) (input : Option Val)
+    (st : EState) (hen : w.enabled = true)
+    (hmiss : extra.isEmpty = false ∨ input.isNone = false ∨ w.get (q.encode Gen.escapeTable) = none)
+    (h : evalQ env (n+1) w q raw extra input true = (w', .st st))
+    (hstep : q.hasStep = true)
+    (hraw : st.isError = true → raw = q.encode Gen.escapeTable)
+    (hbad : st.isError = true ∨ st.volatile = true ∨ st.caching = false) :
+    w'.get (q.encode Gen.escapeTable) = none :=
+  Liquer.not_admitted env n w w' q raw extra input st hen hmiss h hstep hraw hbad
+
+/-- extra parameters make a successful result volatile (reference level) -/
+theorem extra_is_volatile (env : Env) (n : Nat) (st : EState) (a : Action) (raw parent : Str) (extra : Extra)
+    (s : EState) (h : (refAction env n st a raw parent extra).1 = .st s) (hs : s.isError = false)
+    (hx : extra.isEmpty = false) : s.volatile = true :=
+  refAction_extra_volatile env n st a raw parent extra s h hs hx
+
+/-! ### never stored: evaluations on `NoCache` -/
+
+/-- `evaluate_on` / an injected input value (`useCache = false`): the evaluation of a link-free, `sub`-free query
+adds no data to the global cache — no entry gains a state, visible or hidden — whatever the input value, the
+extra parameters, the spelling. (Links and `sub` go through the global cache like plain evaluations; what they
+add is sound by `served_is_fresh_from`.) -/
+theorem never_stored (env : Env) (n : Nat) (w : World) (q : Query) (raw : Str) (extra : Extra) (input : Option Val)
+    (hq : q.plain = true) (k : Str) (s : EState)
+    (h : (evalQ env n w q raw extra input false).1.dataAt k = some s) : w.dataAt k = some s :=
+  evalQ_plain_keeps env n w q raw extra input hq k s h
+
+theorem never_stored_get (env : Env) (n : Nat) (w : World) (q : Query) (raw : Str) (extra : Extra) (input : Option Val)
+    (hq : q.plain = true) (k : Str) (s : EState)
+    (h : (evalQ env n w q raw extra input false).1.get k = some s) : w.dataAt k = some s :=
+  (evalQ_plain_keeps env n w q raw extra input hq).get h
+
+/-- `store_metadata` never creates data -/
+theorem metadata_only (w : World) (k status k' : Str) (s : EState)
+    (h : (w.storeMeta k status).dataAt k' = some s) : w.dataAt k' = some s :=
+  World.dataAt_storeMeta h
+
+/-- a disabled cache (`NoCache()`) never holds data, whatever is evaluated -/
+theorem nocache_stays (env : Env) (n : Nat) (w : World) (q : Query) (raw : Str) (extra : Extra) (input : Option Val)
+    (uc : Bool) (hN : w.NoCache) (k : Str) : (evalQ env n w q raw extra input uc).1.get k = none :=
+  ((exact env n).q w q raw extra input uc hN).1.get k
+
+-- non-vacuity.  (1) hypotheses of `served_is_fresh` / `never_data`: the example family and a history over it;
+-- `one/add-2` evaluated with extra parameters is volatile and leaves no data under its key, while the plain
+-- evaluation does.  (2) `not_admitted`: `one/boom` fails at its last step.  (3) `never_stored`: `one/add-2` is plain.
+open Ex in
+example : Closed env0 C0 T0 ∧ (∀ q, C0 q → CanonOK env0 q) ∧
+    (∀ op ∈ [HistOp.eval qLink (s "one/add-~X~/one~E"), .evalExtra qOneAdd (s "one/add-2") (.list [])], op.ok C0 T0) := by
+  refine ⟨closed0, canon0, ?_⟩
+  intro op hm
+  simp only [List.mem_cons, List.not_mem_nil, or_false] at hm
+  rcases hm with rfl | rfl <;> simp [HistOp.ok, C0]
+open Ex in
+example :
+    ((evalQ env0 9 {} qOneAdd (s "one/add-2") (.dict [(s "y", .int 5)]) none true).1.get (s "one/add-2") = none) ∧
+    ((evalQ env0 9 {} qOneAdd (s "one/add-2") (.dict [(s "y", .int 5)]) none true).2.obs.map (·.volatile) = some true) ∧
+    ((evalQ env0 9 {} qOneAdd (s "one/add-2") .none none true).1.get (s "one/add-2") ≠ none) ∧
+    ((evalQ env0 9 {} qOneAdd (s "one/add-2") .none (some (.int 5)) false).1.cache.all (fun e => e.2.st.isNone)) ∧
+    qOneAdd.plain = true ∧ qOneAdd.hasStep = true ∧
+    -- `one/boom`: fails at its last step; nothing retrievable under its key; the successful prefix is cached
+    (evalQ env0 9 {} qOneBoom (s "one/boom") .none none true).2.obs.map (·.value) = some none ∧
+    (evalQ env0 9 {} qOneBoom (s "one/boom") .none none true).1.get (s "one/boom") = none ∧
+    (evalQ env0 9 {} qOneBoom (s "one/boom") .none none true).1.get (s "one") ≠ none ∧
+    qOneBoom.hasStep = true ∧ qOneBoom.encode Gen.escapeTable = s "one/boom" := by
+  decide +kernel
+
 end Liquer.C05
 
--- OBLIGATIONS: Liquer.C05.inst_registry
+-- OBLIGATIONS: Liquer.C05.inst_registry Liquer.C05.served_is_fresh Liquer.C05.served_is_fresh_from Liquer.C05.never_data Liquer.C05.never_data_raised Liquer.C05.not_admitted Liquer.C05.extra_is_volatile Liquer.C05.never_stored Liquer.C05.never_stored_get Liquer.C05.metadata_only Liquer.C05.nocache_stays
